@@ -34,8 +34,8 @@ CHECKS = {
          "DESIGN.md §4 C03"),
  "C04": ("A-sequential-explorer",
          "explicit-state BFS to a fixpoint with every gate answer available at every frame + exhaustive deviation-bounded trees of motion strings x per-frame gate answers (real window.Window with injected clock at the boundaries, disk check, file creation); iff-oracle",
-         "Every event string to depth 8 (9) with <=2 (3) per-frame gate deviations from the full menu (window clock at start-1ns/start/start+1s/stop-1ns/stop/stop+1s/other day for a day window, a window spanning midnight and no window; disk check refused; creation refused; combinations), trigger-frames 0..3; a start must happen iff all five conditions of the statement hold, using the harness's own interval arithmetic.",
-         "CPTVFileRecorder.checkDiskSpace itself (statfs arithmetic) is exercised in the C10/C11 file-level harness, not here.",
+         "Every event string to depth 8 (9) with <=2 (3) per-frame gate deviations from the full menu (window clock at start-1ns/start/start+1s/stop-1ns/stop/stop+1s/other day for a day window, a window spanning midnight and no window; disk check refused; creation refused; combinations), trigger-frames 0..3; a start must happen iff all five conditions of the statement hold, using the harness's own interval arithmetic. Overlay stage: the real free-disk-space check at every boundary position of min-disk-space.",
+         "The disk check is an abstract gate answer in the processor-level exploration; it is bound to the real code by an overlay stage (cmd/thermal-recorder): checkDiskSpace, CheckCanRecord and the min-disk-space-mb setting end to end through handleConn, with min-disk-space at 0, 1, free-1, free, free+1, 2*free, 2^40 MB relative to the free space measured by the harness (free space itself cannot be injected without a hook; cases during which it moved are repeated, then skipped).",
          "DESIGN.md §4 C04"),
  "C05": ("A-sequential-explorer",
          "explicit-state BFS to a fixpoint + exhaustive bounded tree on the real ThrottledRecorder with injected clock; arrival-curve monitor; composition under the real MotionProcessor",
